@@ -16,6 +16,7 @@ func (ex *Exec) fieldAddr(s *State, fr *Frame, base Value, ptrT types.Type, fiel
 	if rv, ok := base.(RefV); ok {
 		ex.emit(s, "safety", ex.obName(fr, "nil", at), Neq(rv.T, Null), at.Pos(), "nil pointer dereference (field address)")
 		s.assume(Neq(rv.T, Null))
+		s.instantiateAt(ex, rv.T)
 	}
 	if _, ok := base.(NilV); ok {
 		ex.emit(s, "safety", ex.obName(fr, "nil", at), False, at.Pos(), "nil pointer dereference (field address)")
@@ -592,7 +593,7 @@ func (ex *Exec) makeSlice(s *State, fr *Frame, x *ssa.MakeSlice) Value {
 	ln := ex.idxTerm(ex.val(fr, x.Len).(IntV))
 	cp := ex.idxTerm(ex.val(fr, x.Cap).(IntV))
 	ex.check(s, "safety", ex.obName(fr, "makeslice", x), And(ICmp("<=", IntC(0), ln), ICmp("<=", ln, cp)), x.Pos(), "make: len in range")
-	obj := s.newObject(ex, "bytes", 0)
+	obj := s.newObject(ex, "bytes", bytesTypeID)
 	bl := s.H(ex, "blen", ArrSort(SRef, SInt))
 	s.setH("blen", Store(bl, obj, cp))
 	b := s.H(ex, "B", ex.bSort())
